@@ -279,6 +279,8 @@ class SciPyOptimizer(Optimizer):
         lin_coef: NDArray[np.float64] | None,
     ) -> NDArray[np.float64]:
         assert self._normalized_constraints is not None
+        # The constraint function may be the first one called at a new point:
+        self._reset_caches_at_new_point(variables)
         if self._normalized_constraints.constraints is None:
             constraints = []
             if self._config.nonlinear_constraints is not None:
@@ -298,6 +300,8 @@ class SciPyOptimizer(Optimizer):
         lin_coef: NDArray[np.float64] | None,
     ) -> NDArray[np.float64]:
         assert self._normalized_constraints is not None
+        # The constraint gradient may be the first one called at a new point:
+        self._reset_caches_at_new_point(variables)
         if self._normalized_constraints.gradients is None:
             gradients = []
             if self._config.nonlinear_constraints is not None:
@@ -397,15 +401,7 @@ class SciPyOptimizer(Optimizer):
         assert gradients is not None
         return gradients[1:, :]
 
-    def _get_function_or_gradient(
-        self, variables: NDArray[np.float64], *, get_function: bool, get_gradient: bool
-    ) -> tuple[NDArray[np.float64] | None, NDArray[np.float64] | None]:
-        if self._parallel and variables.ndim > 1:
-            variables = variables.T
-
-        if self._method in _NO_GRADIENT:
-            get_gradient = False
-
+    def _reset_caches_at_new_point(self, variables: NDArray[np.float64]) -> None:
         if (
             self._cached_variables is None
             or variables.shape != self._cached_variables.shape
@@ -416,6 +412,17 @@ class SciPyOptimizer(Optimizer):
             self._cached_gradient = None
             if self._normalized_constraints is not None:
                 self._normalized_constraints.reset()
+
+    def _get_function_or_gradient(
+        self, variables: NDArray[np.float64], *, get_function: bool, get_gradient: bool
+    ) -> tuple[NDArray[np.float64] | None, NDArray[np.float64] | None]:
+        if self._parallel and variables.ndim > 1:
+            variables = variables.T
+
+        if self._method in _NO_GRADIENT:
+            get_gradient = False
+
+        self._reset_caches_at_new_point(variables)
 
         function = self._cached_function if get_function else None
         gradient = self._cached_gradient if get_gradient else None
